@@ -263,8 +263,11 @@ def c08_typedef_outside(kind: int, nsdepth: int, p: int, extra: int) -> bool:
 SAME_LAYOUTS = [(("ns1",), ("ns2",)), (("gtsam",), ()), (("a", "b"), ("b",)), (("lib", "a"), ("lib", "b", "c")), ((), ("inner",))]
 
 
-def build_same_name(layout, order, with_first=True, with_second=True):
-    """typedefs of both templates written in ONE block ahead of the namespaces that define them"""
+def build_same_name(layout, order, with_first=True, with_second=True, where=0):
+    """typedefs of both templates written in ONE block: where=0 at global scope ahead of the namespaces that define them;
+    where=1 inside (a separate block of) the outermost namespace of one of the templates, ahead of them — the names stay
+    qualified from the ROOT, although one of them could also be read relative to that namespace; where=2 the same block
+    after the templates"""
     n1, n2 = SAME_LAYOUTS[layout]
     q1, q2 = "".join(x + "::" for x in n1), "".join(x + "::" for x in n2)
     tds = []
@@ -279,11 +282,15 @@ def build_same_name(layout, order, with_first=True, with_second=True):
         return "".join("namespace %s { " % x for x in path) + body + " }" * len(path)
     t1 = "template<T> class Box { Box(T a); T first() const; };"
     t2 = "template<T> class Box { Box(); void second(T b) const; static int Count(); };"
-    parts = tds[:]
+    if where:
+        tds = ["namespace %s { %s }" % ((n1 or n2)[0], " ".join(tds))] if tds else []
+    parts = tds[:] if where != 2 else []
     if with_first:
         parts.append(block(n1, t1) if n1 else t1)
     if with_second:
         parts.append(block(n2, t2) if n2 else t2)
+    if where == 2:
+        parts += tds
     want = {}
     if with_first:
         want["BoxA"] = ("%sBox<double>" % q1, ["first"], [""] + list(n1))
@@ -301,8 +308,8 @@ def find_all(ns, name, out):
     return out
 
 
-def check_same_name(layout, order):
-    text, want = build_same_name(layout, order)
+def check_same_name(layout, order, where=0):
+    text, want = build_same_name(layout, order, where=where)
     problems = []
     try:
         mod = ti.instantiate_namespace(parser.Module.parseString(text))
@@ -322,18 +329,19 @@ def check_same_name(layout, order):
     return True
 
 
-def c08_same_name_templates(layout: int, order: int) -> bool:
+def c08_same_name_templates(layout: int, order: int, where: int) -> bool:
     """
     Two class templates with the same name in different namespaces (siblings; namespaced and global; one path a suffix of
-    the other; nested), each instantiated by a typedef, both typedefs in one block, in either order: each alias is the
-    instantiation of the template its typedef names.
-    pre: 0 <= layout < len(SAME_LAYOUTS) and 0 <= order <= 1
+    the other; nested), each instantiated by a typedef, both typedefs in one block — at global scope, or inside a
+    namespace from which one of the (root-qualified) names could also be read relatively, before or after the
+    templates — in either order: each alias is the instantiation of the template its typedef names from the root.
+    pre: 0 <= layout < len(SAME_LAYOUTS) and 0 <= order <= 1 and 0 <= where <= 2
     post: _
     """
-    layout, order = pick(layout, 0, len(SAME_LAYOUTS)), pick(order, 0, 2)
+    layout, order, where = pick(layout, 0, len(SAME_LAYOUTS)), pick(order, 0, 2), pick(where, 0, 3)
     with concrete():
-        ok = check_same_name(layout, order)
-    reached({"layout": layout, "order": order})
+        ok = check_same_name(layout, order, where)
+    reached({"layout": layout, "order": order, "where": where})
     return ok
 
 
@@ -388,8 +396,8 @@ def conds(tier):
                 bounds="3 typedef targets x 4 placements x 1-2 parameters x namespace depth 0-2 x 0-2 enumerated instantiations"),
         xh.Cond(M, "c08_template_id_lists", t(120, 600), kind="shape-bounded", examples=["which=0, kind=0, nsdepth=1", "which=1, kind=1, nsdepth=0", "which=3, kind=0, nsdepth=2", "which=4, kind=0, nsdepth=0"],
                 bounds="%d instantiation lists with shared outer names x class | function template x namespace depth 0-2" % len(TID_LISTS)),
-        xh.Cond(M, "c08_same_name_templates", t(120, 600), kind="shape-bounded", examples=["layout=0, order=0", "layout=1, order=0", "layout=2, order=1", "layout=4, order=1"],
-                bounds="%d namespace layouts x 2 typedef orders" % len(SAME_LAYOUTS)),
+        xh.Cond(M, "c08_same_name_templates", t(120, 600), kind="shape-bounded", examples=["layout=0, order=0, where=0", "layout=1, order=0, where=1", "layout=2, order=1, where=1", "layout=4, order=1, where=2"],
+                bounds="%d namespace layouts x 2 typedef orders x 3 places of the typedef block" % len(SAME_LAYOUTS)),
         xh.Cond(M, "c08_typedef_outside", t(120, 600), kind="shape-bounded", examples=["kind=0, nsdepth=2, p=1, extra=0", "kind=1, nsdepth=1, p=1, extra=0", "kind=0, nsdepth=3, p=2, extra=3"],
                 bounds="class template / foreign template x namespace depth 1-3 x 1-2 parameters x 4 contents of the template's namespace"),
     ]
